@@ -97,8 +97,19 @@ def run(model, rep, tier):
             rep.ob('ne-negates-eq', mod, ne, unparse(ne.body[-1]), shape == 'neg-eq',
                    '' if shape == 'neg-eq' else '__ne__ is not the negation of __eq__ (%s)' % shape, engine='eqhash')
         else:
-            rep.ob('ne-negates-eq', mod, ci.node, '%s has no __ne__ (Python derives it from __eq__)' % cname, True,
-                   nontrivial=False, engine='eqhash')
+            # Python derives != from __eq__ only when no base class supplies its own __ne__: tuple (hence every namedtuple)
+            # does, and compares the fields element by element
+            tuple_base = ci.namedtuple_fields is not None or any(unparse(b) in ('tuple', 'list', 'dict', 'set', 'frozenset', 'str')
+                                                                  for b in ci.node.bases)
+            inherited = None
+            for c in model.mro(ci)[1:]:
+                if '__ne__' in c.methods:
+                    inherited = c.name
+            ok = not tuple_base and inherited is None
+            rep.ob('ne-negates-eq', mod, ci.node, '%s has no __ne__ of its own' % cname, ok,
+                   '' if ok else 'the class overrides __eq__ but inherits __ne__ from %s: `a != b` is evaluated by the base class '
+                   '(field-by-field tuple comparison), not as the negation of __eq__' % (inherited or 'tuple (namedtuple base)'),
+                   nontrivial=not ok, engine='eqhash')
         # names
         special = [m for m in ('__eq__', '__ne__', '__hash__', '__neg__', '__add__', '__sub__', '__xor__', '__radd__')
                    if m in ci.methods]
@@ -318,6 +329,8 @@ def _subst(node, sigma):
 
 
 BREAKERS = [
+    ('onsager/OnsagerCalc.py', "    def __ne__(self, other):\n        return not self.__eq__(other)\n\n    def __hash__(self):\n        return hash(self.pre.data.tobytes()",
+     "    def __hash__(self):\n        return hash(self.pre.data.tobytes()", 'ne-negates-eq'),
     ('onsager/crystal.py', "        return not self.__eq__(other)\n\n    def __hash__(self):\n        \"\"\"Hash, so that we can make sets of group operations\"\"\"",
      "        return self.__eq__(other)\n\n    def __hash__(self):\n        \"\"\"Hash, so that we can make sets of group operations\"\"\"", 'ne-negates-eq'),
     ('onsager/crystal.py', "return hash(self.rot.data.tobytes()) ^ hash(self.indexmap)", "return hash(self.rot.data.tobytes()) ^ hash(tuple(self.trans))",
